@@ -38,12 +38,15 @@ def directory():
     n = len(IDS)
     for i, plid in enumerate(IDS):
         eid = IDS[(i + 5) % n]
-        pels.append({'plid': plid, 'eid': eid, 'obmc': [0, 1, 7, 10, 4294967295, 11, 12, 13, 14, 15, 16, 17][i],
+        pels.append({'plid': plid, 'eid': eid, 'obmc': [20, 1, 7, 10, 4294967295, 11, 12, 13, 14, 15, 16, 17][i],
                      'code': CODES[i % len(CODES)], 'uh': {'sev': 0x40, 'flags': 0xA000}})
     pels.append({'plid': 0x50000001, 'eid': 0x60000001, 'obmc': 100, 'code': 'BD8D1234', 'uh': {'sev': 0x40, 'flags': 0xA000}})
     pels.append({'plid': 0x0000ABCD, 'eid': 0x60000002, 'obmc': 101, 'code': 'BD8D1235', 'uh': {'sev': 0x40, 'flags': 0x6000}})   # hidden
     pels.append({'plid': 0x0000ABCD, 'eid': 0x60000003, 'obmc': 102, 'code': '11001234', 'uh': {'sev': 0x20, 'flags': 0x0000}})   # non-serviceable
     pels.append({'plid': 0x0000ABCE, 'eid': 0x60000004, 'obmc': 103, 'code': None, 'uh': {'sev': 0x40, 'flags': 0xA000}})        # no SRC
+    # "falsy" id values on PELs that only the look-up clause lets through: hidden with BMC id 0 / PLID 0
+    pels.append({'plid': 0x00000000, 'eid': 0x60000005, 'obmc': 0, 'code': 'B7001111', 'uh': {'sev': 0x40, 'flags': 0x6000}})
+    pels.append({'plid': 0x00000001, 'eid': 0x60000006, 'obmc': 104, 'code': 'B7001111', 'uh': {'sev': 0x00, 'flags': 0x0000}})  # informational
     out = []
     for i, m in enumerate(pels):
         secs = [{'t': 'UD', 'comp': 0xABCD, 'payload': '%02x' % i}]
@@ -233,7 +236,7 @@ def run_chunk(chunk):
                     for order in (['sorted'] if i % 5 else ['sorted', 'reversed']):
                         _do(res, d, dict(c, order=order))
         elif k == 'bmc':
-            for v in [0, 1, 7, 10, 4294967295, 100, 101, 102, 103, 2, 8, 4294967294, 42949672950]:
+            for v in [0, 1, 7, 10, 20, 4294967295, 100, 101, 102, 103, 104, 2, 8, 4294967294, 42949672950]:
                 for order in ('sorted', 'reversed'):
                     _do(res, d, {'q': 'bmc', 'arg': str(v), 'order': order})
         elif k == 'id':
